@@ -32,7 +32,7 @@ def cases(tier, seed):
                                   "as_true": name == "weight" and k % 2 == 0,
                                   "chunk": rng.choice([1, 2, 10 ** 7]),
                                   "open": "handle" if k % 6 else rng.choice(["path", "uri"]),
-                                  "wins": wins3[part:part + 50]}
+                                  "wins": wins3[part:part + 50], **({"at": "/resolutions/10"} if k % 4 == 2 else {})}
         k += 1
     # larger stores, several chromosomes, random windows incl. rectangular with different row/column ranges
     nbig = 40 if tier == "quick" else 800
@@ -47,14 +47,15 @@ def cases(tier, seed):
         rng.shuffle(wins)
         yield "rq.balanced", {"n": n, "mode": mode, "px": px, "table": table, "wexp": wexp,
                               "wname": rng.choice(NAMES), "divisive": rng.choice(["None", "True", "False"]),
-                              "as_true": False, "chunk": rng.choice([1, 3, 10 ** 7]), "open": "handle", "wins": wins[:40]}
+                              "as_true": False, "chunk": rng.choice([1, 3, 10 ** 7]), "open": ["handle", "path", "uri"][k % 3],
+                              "wins": wins[:40], **({"at": "/a/b"} if k % 3 == 1 else {})}
     # missing weight column must be an error, for every form; also balance=True without a 'weight' column
     for k in range(6 if tier == "quick" else 40):
         mode = rng.choice(["symm", "square"])
         px = rng.choice(stores[mode])
         for name, have in (("nosuch", True), ("weight", False), ("KR", True), ("nosuch", False)):
             yield "rq.missing", {"n": 3, "mode": mode, "px": px, "wname": name, "have_weight": have,
-                                 "open": "handle", "wins": rng.sample(wins3, 6)}
+                                 "open": "handle", "wins": rng.sample(wins3, 6), **({"at": "/a/b"} if k % 2 else {})}
 
 
 def run(tier, seed, only_case=None):
